@@ -616,6 +616,25 @@ fn family_mem(out: &mut Vec<Case>) {
             out.push(Case::Eval(ev("mem", format!("<div {}/>", attr("v", &s)), vec![("r:v", refjs(&e, &[]), false)], vars.clone(), pool_mem(), Pick::All)));
         }
     }
+    // identifiers that merely START with (or contain) a keyword or word operator, and member names that ARE keywords
+    let kw: Vec<E> = vec![
+        id("typeof_x"), id("typeofx"), id("typeof$"), id("typeof1"), id("void_0"), id("voidx"), id("instanceof_y"), id("instanceofx"), id("trueish"), id("true_"), id("falsey"), id("false1"),
+        id("nullable"), id("null_"), id("undefinedx"), id("undefined_"), id("in_"), id("inx"), id("new_"), id("newx"), id("_typeof"), id("$void"), id("x_true"),
+        un("typeof", id("typeof_x")), un("void", id("void_0")), un("!", id("trueish")), bin("+", id("typeof_x"), lit("1")), bin("===", id("nullable"), lit("null")),
+        bin("instanceof", id("instanceof_y"), f.clone()), cond(id("true_"), id("false1"), id("null_")), mem(o.clone(), "typeof_x"), mem(o.clone(), "true"), mem(o.clone(), "null"), mem(o.clone(), "void"),
+        mem(o.clone(), "instanceof"), idx(o.clone(), id("typeof_x")), call(f.clone(), vec![id("void_0"), id("trueish")]), obj(vec![named("typeof_x", id("typeof_x")), short("trueish"), named("true", id("true_"))]),
+        arr(vec![v(id("nullable")), v(id("undefinedx"))]),
+    ];
+    for e in kw {
+        let mut vars = vec![];
+        vars_of(&e, &mut vars);
+        let n = vars.len();
+        let (pool, pick, _) = pool_for(n.max(1));
+        for full in [false, true] {
+            let s = src(&e, full);
+            out.push(Case::Eval(ev("mem", format!("<div {}/>", attr("v", &s)), vec![("r:v", refjs(&e, &[]), false)], vars.clone(), if n > 3 { pool_small() } else { pool.clone() }, if n > 3 { Pick::Lcg(200, 0x77) } else { pick.clone() })));
+        }
+    }
     // instanceof with a real instance
     let e = bin("instanceof", o.clone(), f.clone());
     let pool = pool_of(&[r#"{"$":"inst"}"#, r#"{"$":"fn","k":"ctor"}"#, OBJ, FN, "null"]);
@@ -1163,6 +1182,9 @@ fn family_parse(out: &mut Vec<Case>) {
     pc("idents", vec![("p/idents", "<a/>".repeat(many))], vec![], out);
     pc("idents", vec![("p/idents2", format!("{}{}", "<a b=\"{{ c }}\">{{ d }}</a>".repeat(many), "<template name=\"t\">".to_string() + &"<i/>".repeat(many) + "</template>"))], vec![], out);
     pc("idents", vec![("p/idents3", format!("<block wx:for=\"{{{{ l }}}}\">{}</block><c>{}</c>", "<a x=\"{{ item ? index : 1 }}\"/>".repeat(many), "<b wx:if=\"{{ x }}\"/>".repeat(many)))], vec![], out);
+    pc("idents", vec![("p/idents6", "<block wx:for=\"{{ l }}\">x</block>".repeat(3000))], vec![], out);
+    pc("idents", vec![("p/idents7", format!("{}{}", "<view/>".repeat(2180), "<block wx:for=\"{{ l }}\"><block wx:for=\"{{ item }}\">{{ item }}</block></block>".repeat(600)))], vec![], out);
+    pc("idents", vec![("p/idents8", format!("<block wx:for=\"{{{{ l }}}}\">{}</block>", "<block wx:for=\"{{ item }}\" wx:for-item=\"j\"><i a=\"{{ j ? item : index }}\"/></block>".repeat(1200)))], vec![], out);
     pc("idents", vec![("p/idents4", format!("{}<slot/>{}", "<v>".repeat(60), "</v>".repeat(60)))], vec![], out);
     pc("idents", vec![("p/idents5", "<wxs module=\"m\">exports.a = 1</wxs>".to_string() + &"<a p=\"{{ m.a + x[y] }}\" bind:tap=\"{{ m.a }}\" change:q=\"{{ m.a }}\"/>".repeat(many))], vec![], out);
     // strings in every static position
